@@ -24,6 +24,7 @@
 //! typing, every admissible (operator, weak typing) pair in two contexts; on top of that a seeded
 //! draw (`E4_MATRIX_SEED`, default fixed) adds entries with random context / typing / pre-stage.
 
+pub mod c33;
 pub mod spec;
 
 #[derive(Clone, Copy, Debug, PartialEq, Eq, PartialOrd, Ord)]
